@@ -307,9 +307,12 @@ def applyEvent (s : PSys) : Event → Except String PSys
   | .win i cfg q =>
     let n := s.nodes i
     if n.up ∧ n.role = 1 ∧ n.vote = i ∧ cfg.isQuorum q ∧ s.grants.contains ⟨n.term, i, i⟩ ∧
-        q.all (fun v => s.grants.contains ⟨n.term, v, i⟩) then
+        q.all (fun v => s.grants.contains ⟨n.term, v, i⟩) ∧
+        -- ghost side of the same quorum: every counted grant was decided before any leader of this
+        -- term existed, against the (last term, last index) of the log the winner holds now
+        q.all (fun v => s.rgv.any (fun p => p.1 = ⟨n.term, v, i⟩ ∧ p.2.early ∧ p.2.clt = lastTerm n.log ∧ p.2.cli = n.log.length)) then
       ok { s with nodes := upd s.nodes i { n with role := 2 }, llog := updT s.llog n.term n.log, elog := updT s.elog n.term n.log, elected := (n.term, i) :: s.elected }
-    else .error "win: not a candidate with a quorum of released grants (its own durable self-vote included)"
+    else .error "win: not a candidate with a quorum of released grants (its own durable self-vote included) decided against the log it holds"
   | .stepDown i =>
     let n := s.nodes i
     if n.up then ok { s with nodes := upd s.nodes i { n with role := 0 } }
